@@ -136,6 +136,10 @@ def _run_once(chk):
 
 
 def run(chk):
+    # regexes that can match the empty string: the field count every bound is resolved against comes from the engine's matches, the zero-width ones
+    # included (a resolvable bound must never print a fallback, an unresolvable one must never be silent) — the stream of C16, same oracle
+    from props.c16 import empty_match_stream
+    empty_match_stream(chk)
     # thorough = several independent rounds of the same generators (the PRNG keeps advancing), so that memory stays bounded
     for _round in range(1 if chk.tier == "quick" else 6):
         _run_once(chk)
